@@ -68,6 +68,7 @@ Proof.
     match goal with |- le_res (?F ?a ?b ?c) (?G ?a ?b ?c) =>
       assert (HH : forall b' c', le_res (F a b' c') (G a b' c')); [| apply HH] end.
     induction items as [|it items IH]; intros remaining binder; [mono|]. destruct it; mono; try apply IH.
+  - induction es as [|e es IH]; mono.
 Qed.
 End Mono.
 
